@@ -250,7 +250,7 @@ def judge_field(seed):
         keep = [(0,), (1,), (2,), (0, 1)][unit]
         spacing = tuple(spacing[i] if i in keep else 1.0 for i in range(3))
     f = blob_field(nrng, shape, spacing)
-    level = float(nrng.uniform(0.15, 0.6))
+    level = float(np.float32(nrng.uniform(0.15, 0.6)))      # representable in single precision: the numpy-scalar variants below are the SAME level
     bmax = max(f[0].max(), f[-1].max(), f[:, 0].max(), f[:, -1].max(), f[:, :, 0].max(), f[:, :, -1].max())
     if bmax >= level or f.max() <= level:
         return None, 0          # the level set reaches the boundary (or is empty): outside the quantifier
